@@ -21,6 +21,7 @@ import NemoVerif.Lemmas.GroupCoreVMLoop
 import NemoVerif.Lemmas.GroupCoreVMRun
 import NemoVerif.Lemmas.GroupCoreVMStart
 import NemoVerif.Lemmas.GroupCoreVMOrRun
+import NemoVerif.Lemmas.GroupCoreVMExit
 namespace NemoVerif.C07
 open NemoVerif NemoVerif.Dnf NemoVerif.GroupExpand NemoVerif.GroupVM
 
@@ -504,6 +505,19 @@ theorem groupvm_is_corevm_partial_or_run (fuel : Nat) (f : CoreIndex.FUid) (x : 
   refine ⟨s', ?_⟩
   rw [hs']
   simp only [markers, normalize_eq, toDnf_ofDnf, dnf, dnfOr_atoms, Dnf.init]
+
+/-- **groupvm_is_corevm_partial (exit segment).**  The forking head, handed back ACTIVE on the group's last `MergeHeads`, is advanced
+    (`head.position += 1; slide`) over `CatchPatternFailure(None)` onto the element after the group statement — the marker `send`
+    (a plain, non-internal event), where `slide` stops: the element after the group is reached.  Only this head's position changes. -/
+theorem groupvm_is_corevm_partial_exit (fuel : Nat) (s : CoreVM.VM) (f : CoreIndex.FUid) (h : CoreIndex.HUid) (i : CoreIndex.Inst)
+    (x : CoreVM.InstX) (cfg : CoreVM.FlowCfg) (hd : CoreIndex.Head) (spec : CoreVM.Spec) (n : String)
+    (H : CoreVM.HeadAt s f h i x cfg hd) (hsz : hd.pos + 2 < cfg.elements.size)
+    (hc1 : cfg.elements[hd.pos + 1]! = .catchFail none) (hc2 : cfg.elements[hd.pos + 2]! = .sendOp spec)
+    (hp : CoreVM.PlainSpec spec n) (hargs : spec.args = []) (hint : CoreVM.internalEvents.contains n = false)
+    (hcl : ((OMap.lookup (f, h) s.r.hx).getD {}).catchLabels.isEmpty = false) :
+    ∃ s' i', CoreVM.advanceMember (fuel + 2) f h s = .ok [] s' ∧ CoreVM.FlowAt s' f i' x cfg ∧
+      CoreVM.hview i' = (CoreVM.hview i).map (CoreVM.setPosCore h (hd.pos + 2)) :=
+  CoreVM.group_exit fuel s f h i x cfg hd spec n H hsz hc1 hc2 hp hargs hint hcl
 
 /-! ## the expanded element list -/
 
@@ -1027,5 +1041,19 @@ example (es : List Nat) :=
       · trivial
       · exact ⟨by decide, Or.inl rfl⟩
       · omega)
+
+/-- `match E0() and E1()` followed by `send Hit()`: the root head back ACTIVE on the last `MergeHeads` (position 15) -/
+def exCfgAndHit : CoreVM.FlowCfg :=
+  { exCfgAnd with elements := exCfgAnd.elements ++ #[.sendOp (exSpec "Hit"), .matchOp (exSpec "Never") false] }
+def exIxsExit : CoreVM.IxS :=
+  (({} : CoreVM.IxS).apply (.addInst "m" "h0" none) (by decide)).apply (.setPos "m" "h0" 15 none) (by decide)
+def exVMExit : CoreVM.VM :=
+  { ixs := exIxsExit, r := { prog := { flows := [exCfgAndHit] }, fx := [("m", exX)], hx := [(("m", "h0"), { catchLabels := ["f"] })] } }
+
+-- non-vacuity of `groupvm_is_corevm_partial_exit`
+example :=
+  groupvm_is_corevm_partial_exit 1 exVMExit "m" "h0" { uid := "m", status := .waiting, heads := [{ uid := "h0", pos := 15, status := .active, elem := none }] }
+    exX exCfgAndHit { uid := "h0", pos := 15, status := .active, elem := none } (exSpec "Hit") "Hit"
+    { hi := rfl, hx := rfl, hc := rfl, hh := rfl, hlt := by decide, hst := by decide } (by decide) rfl rfl ⟨rfl, rfl, rfl⟩ rfl (by decide) rfl
 
 end NemoVerif.C07
